@@ -43,7 +43,7 @@ Fixpoint insert_nth {A} (i : nat) (x : A) (l : list A) : list A :=
   | S j, a :: t => a :: insert_nth j x t
   end.
 
-Fixpoint upd_nth {A} (n : nat) (f : A -> A) (l : list A) : list A :=
+Fixpoint upd_nth {A} (n : nat) (f : A -> A) (l : list A) {struct l} : list A :=
   match l, n with
   | [], _ => []
   | a :: t, 0 => f a :: t
@@ -681,3 +681,55 @@ Definition seq_conc (s : state) (y x : nat) : bool := seqf (S (S (List.length (o
 
 (** the model the check runs *)
 Definition step_conc (fixed : bool) : state -> op -> outcome := step fixed seq_conc.
+
+(* ------------------------------------------------------------------------------------------------ bad arguments *)
+
+(** what a refusing call returns: false, or a null pointer for the take* family *)
+Definition refusal (o : op) : ret :=
+  match o with
+  | TakeComponentIdx _ _ | TakeComponentName _ _ _ | TakeVariableIdx _ _ | TakeVariableName _ _ | TakeReset _ _
+  | TakeUnitsIdx _ _ | TakeUnitsName _ _ => RObj None
+  | _ => RBool false
+  end.
+
+Definition is_refused {A} (r : local A) : bool := match r with LRefused => true | _ => false end.
+Definition isnone {A} (o : option A) : bool := match o with None => true | Some _ => false end.
+Definition oob (s : state) (K : ck) (k i : nat) : bool := isnone (nth_error (children s K k) i).
+
+(** [bad_arg s o]: the call hands over a null pointer, an index one past the end (or further), a name no child has, or
+    an entity that is neither a child nor structurally equal to one (never added; added to something else; owner gone).
+    For the searching overloads: nothing is found anywhere in the encapsulation hierarchy. *)
+Section BadArg.
+  Variable fixed : bool.
+  Variable seq : state -> nat -> nat -> bool.
+
+  Definition nowhere (s : state) (dp : bool) (k : nat) (nonnull : bool) (finder : nat -> option nat) : bool :=
+    is_refused (with_deep s dp (fun k' => if nonnull then of_opt (finder k') else LRefused) k).
+
+  Definition optfind (s : state) (K : ck) (k : nat) (x : option nat) : option nat :=
+    match x with Some a => find_child fixed seq s K k a | None => None end.
+
+  Definition bad_arg (s : state) (o : op) : bool :=
+    match o with
+    | AddComponent _ c | AddVariable _ c | AddReset _ c | AddUnits _ c => isnone c
+    | RemoveComponentIdx k i | TakeComponentIdx k i => oob s CComps k i
+    | RemoveVariableIdx k i | TakeVariableIdx k i => oob s CVars k i
+    | RemoveResetIdx k i | TakeReset k i => oob s CResets k i
+    | RemoveUnitsIdx k i | TakeUnitsIdx k i => oob s CUnits k i
+    | ReplaceComponentIdx k i c => oob s CComps k i || isnone c
+    | ReplaceUnitsIdx k i c => oob s CUnits k i || isnone c
+    | RemoveComponentName k n dp | TakeComponentName k n dp => nowhere s dp k true (fun k' => find_named s CComps k' n)
+    | ReplaceComponentName k n c dp => nowhere s dp k (negb (isnone c)) (fun k' => find_named s CComps k' n)
+    | RemoveComponentPtr k c dp => nowhere s dp k (negb (isnone c)) (fun k' => optfind s CComps k' c)
+    | ReplaceComponentPtr k old c dp => nowhere s dp k (negb (isnone c)) (fun k' => optfind s CComps k' old)
+    | RemoveVariableName k n | TakeVariableName k n => isnone (find_named s CVars k n)
+    | RemoveUnitsName k n | TakeUnitsName k n => isnone (find_named s CUnits k n)
+    | ReplaceUnitsName k n c => isnone c || isnone (find_named s CUnits k n)
+    | RemoveVariablePtr k c => isnone (optfind s CVars k c)
+    | RemoveResetPtr k c => isnone (optfind s CResets k c)
+    | RemoveUnitsPtr k c => isnone (optfind s CUnits k c)
+    | ReplaceUnitsPtr k old c => isnone c || isnone (optfind s CUnits k old)
+    | AddEquivalence a b | AddEquivalence4 a b | RemoveEquivalence a b => isnone a || isnone b
+    | _ => false
+    end.
+End BadArg.
